@@ -18,7 +18,7 @@ import math
 import numpy as np
 from hypothesis import strategies as st
 
-from harness import build, gen
+from harness import reps, build, gen
 from harness import refmodel as rm
 
 RULE = (
@@ -406,6 +406,15 @@ def check_analytic_exact(case, ctx):
 
     pd = np.asarray(qt.calc_prob_dists(true), dtype=float)
     ctx.close(pd, np.stack(md.p), 1e-12, "prob_dists")
+
+    # a total calculation for ANOTHER object that fails on its argument list (one sample size missing), caught by the
+    # caller: every formula below is still that of `true`
+    if reps.pick(repr(md.s_true.tolist()), 2) == 0:
+        other = true.generate_origin_obj()
+        short = list(ns[:-1]) if J >= 2 else [None]
+        ctx.raises((IndexError, TypeError, ValueError), lambda: qt.calc_covariance_mat_total(other, short),
+                   "cov_total:rejects_short_sample_size_list")
+        ctx.label("after-failed-total-on-another-object")
 
     covs = []
     for j in range(J):
